@@ -277,6 +277,19 @@ pub fn stream(name: &str, seed: u64, n: usize) -> Vec<u8> {
         "A" => stream_a(n),
         "B" => stream_b(seed, n),
         "C" => stream_b(seed ^ 0xDEAD_BEEF_CAFE_F00D, n),
+        // degenerate contents: a shortcut keyed on "this block / chunk looks like the last one" or on
+        // zero words would only show on these
+        "Z" => vec![0u8; n],
+        "F" => vec![0xffu8; n],
+        "P64" => {
+            let b = stream_b(seed ^ 0x64, 64);
+            (0..n).map(|i| b[i % 64]).collect()
+        }
+        "P1024" => {
+            let b = stream_b(seed ^ 0x1024, 1024);
+            (0..n).map(|i| b[i % 1024]).collect()
+        }
+        "S" => (0..n).map(|i| if i % 64 == 63 { 0x80 } else { 0 }).collect(),
         _ => panic!("unknown stream {}", name),
     }
 }
